@@ -61,8 +61,12 @@ func waitAdvance(s *hcScript, ep string, from int, d time.Duration) bool {
 
 func healthHistories(r *vkit.R) {
 	n := r.N(300, 5000)
-	const grace = 2 * time.Second
-	r.Assume("endpoint health: a gateway whose endpoint is not probed once within 2 s after three TriggerHealthCheck calls, each of which the fresh gateway (the control, same process, same load) answered with a probe, is not probing that endpoint")
+	// The bound for "never probes" is counted in the CONTROL's progress, not in wall-clock time (a stall of the whole test
+	// process must not look like a missing probe): 50 further trigger rounds, each answered by a probe of the fresh
+	// gateway and followed by a 40 ms pause of this goroutine, i.e. 50 separate occasions on which the scheduler of this very
+	// process ran the equivalent goroutine of the control.
+	const controlRounds = 50
+	r.Assume("endpoint health: a gateway whose endpoint is not probed once during 53 TriggerHealthCheck rounds, each of which the fresh gateway (the control, same process, same load) answered with a probe and which are 40 ms apart, is not probing that endpoint")
 	r.Parallel(n, 16, func(i int, g *vkit.Rand) {
 		// ---- history ----
 		cur := []Srv{{Idx: 0}, {Idx: 1}}
@@ -216,9 +220,19 @@ func healthHistories(r *vkit.R) {
 					return
 				}
 			}
-			if !waitAdvance(hist, e, h0, grace) {
+			for round := 0; round < controlRounds && hist.count(e) == h0; round++ {
+				time.Sleep(40 * time.Millisecond)
+				f0 := fresh.count(e)
+				he.TriggerHealthCheck()
+				fe.TriggerHealthCheck()
+				if !waitAdvance(fresh, e, f0, 20*time.Second) {
+					r.Inconclusive("health: the fresh gateway (control) did not probe within the 20s watchdog after a trigger")
+					return
+				}
+			}
+			if hist.count(e) == h0 {
 				r.Violation("C11/endpoint-health/not-probed/"+class,
-					fmt.Sprintf("endpoint %s is enabled in the latest object; after the upstream health changed and three TriggerHealthCheck calls the fresh gateway probed it %d times, the gateway that processed the history never did (ready=%v, fresh ready=%v, upstream healthy=%v)",
+					fmt.Sprintf("endpoint %s is enabled in the latest object; after the upstream health changed and three TriggerHealthCheck calls the fresh gateway probed it %d times (one probe per trigger, 53 triggers on both), the gateway that processed the history never did (ready=%v, fresh ready=%v, upstream healthy=%v)",
 						e, fresh.count(e), he.IsReady(), fe.IsReady(), final[e]), wit)
 				continue
 			}
@@ -230,7 +244,19 @@ func healthHistories(r *vkit.R) {
 				r.Inconclusive("health: the fresh gateway (control) did not reach the scripted readiness within the 20s watchdog")
 				return
 			}
-			if !vkit.WaitFor(grace, func() bool { return he.IsReady() == want }) {
+			// the history gateway has probed after the final health was set (its counter advanced above); the status update is
+			// part of the same probe call: a few more control rounds give it the time to finish
+			for round := 0; round < controlRounds && he.IsReady() != want; round++ {
+				time.Sleep(40 * time.Millisecond)
+				f0 := fresh.count(e)
+				he.TriggerHealthCheck()
+				fe.TriggerHealthCheck()
+				if !waitAdvance(fresh, e, f0, 20*time.Second) {
+					r.Inconclusive("health: the fresh gateway (control) did not probe within the 20s watchdog after a trigger")
+					return
+				}
+			}
+			if he.IsReady() != want {
 				r.Violation("C11/endpoint-health/readiness-diverges/"+class, fmt.Sprintf("endpoint %s: ready=%v in the gateway that processed the history, %v in a fresh one (upstream healthy=%v)", e, he.IsReady(), fe.IsReady(), want), wit)
 			}
 		}
